@@ -42,10 +42,12 @@ VARIABLES l, P, judge,
           out,      \* pages currently allocated
           files,    \* <<f, g>> -> line of the "file" event carrying the data read back
           live,     \* pages still allocated at the end (-1: not reported)
+          waived,   \* entries whose chunk the (fault-injected) writev refused with EINTR: the unchanged code drops
+                    \* those bytes, so NothingLost is not demanded for them (pages must still come back exactly once)
           notes,    \* {<<"o1", line>>}: executions in which close() hung on a full queue
           bad
 
-mvars == <<l, P, judge, ent, wdone, must, closed, out, files, live, notes, bad>>
+mvars == <<l, P, judge, ent, wdone, must, closed, out, files, live, notes, waived, bad>>
 
 Flag(b, name) == IF b /\ bad = "" THEN name ELSE bad
 SeqSet(q) == {q[i] : i \in 1..Len(q)}
@@ -55,13 +57,13 @@ MInit ==
   /\ l = 2 /\ Tr[1].k = "reset"
   /\ P = Tr[1].P /\ judge = Tr[1].judge_close
   /\ ent = << >> /\ wdone = {} /\ must = {} /\ closed = "no"
-  /\ out = {} /\ files = << >> /\ live = <<-1>> /\ notes = {} /\ bad = ""
+  /\ out = {} /\ files = << >> /\ live = <<-1>> /\ notes = {} /\ waived = {} /\ bad = ""
   /\ TLCSet(1, 1) /\ TLCSet(2, {})
 
 Fresh(e) ==
   /\ P' = e.P /\ judge' = e.judge_close
   /\ ent' = << >> /\ wdone' = {} /\ must' = {} /\ closed' = "no"
-  /\ out' = {} /\ files' = << >> /\ live' = <<-1>>
+  /\ out' = {} /\ files' = << >> /\ live' = <<-1>> /\ waived' = {}
   /\ UNCHANGED <<notes, bad>>
 
 Same(vs) == UNCHANGED vs
@@ -69,23 +71,23 @@ Same(vs) == UNCHANGED vs
 MCallW(e, kind) ==
   /\ ent' = Ext(ent, e.e, [t |-> e.t, f |-> e.f, n |-> e.n, ln |-> l, kind |-> kind])
   /\ bad' = Flag(e.e \in DOMAIN ent \/ ~(SeqSet(e.pages) \subseteq out), "Protocol")
-  /\ Same(<<P, judge, wdone, must, closed, out, files, live, notes>>)
+  /\ Same(<<P, judge, wdone, must, closed, out, files, live, notes, waived>>)
 
 MRetW(e) ==
   /\ wdone' = wdone \cup {e.e}
-  /\ Same(<<P, judge, ent, must, closed, out, files, live, notes, bad>>)
+  /\ Same(<<P, judge, ent, must, closed, out, files, live, notes, bad, waived>>)
 
 NoDup(q) == Cardinality(SeqSet(q)) = Len(q)
 
 MAlloc(e) ==
   /\ out' = out \cup SeqSet(e.ids)
   /\ bad' = Flag(SeqSet(e.ids) \cap out # {} \/ ~NoDup(e.ids), "Protocol")
-  /\ Same(<<P, judge, ent, wdone, must, closed, files, live, notes>>)
+  /\ Same(<<P, judge, ent, wdone, must, closed, files, live, notes, waived>>)
 
 MFree(e) ==
   /\ out' = out \ SeqSet(e.ids)
   /\ bad' = Flag(~(SeqSet(e.ids) \subseteq out) \/ ~NoDup(e.ids), "PagesConserved")      \* returned twice, or never handed out
-  /\ Same(<<P, judge, ent, wdone, must, closed, files, live, notes>>)
+  /\ Same(<<P, judge, ent, wdone, must, closed, files, live, notes, waived>>)
 
 \* pages of entries that were NOT written for file f (other destination, or discarded)
 OtherPages(f) == UNION {SeqSet(Tr[ent[x].ln].pages) : x \in {y \in DOMAIN ent : ~(ent[y].kind = "w" /\ ent[y].f = f)}}
@@ -96,24 +98,25 @@ MWritev(e) ==
   IN /\ bad' = IF ~pagesOk THEN Flag(TRUE, "NoForeignPage")
                ELSE IF e.f < 0 THEN Flag(TRUE, "WrittenExactlyOnce")    \* written to a descriptor that is no generation of any file
                ELSE Flag(~oneDest, "Unmixed")
+     /\ waived' = IF e.fail THEN waived \cup {x \in DOMAIN ent : SeqSet(Tr[ent[x].ln].pages) \cap {e.segs[i][1] : i \in 1..Len(e.segs)} # {}} ELSE waived
      /\ Same(<<P, judge, ent, wdone, must, closed, out, files, live, notes>>)
 
 MCCall(e) ==
   /\ must' = wdone /\ closed' = "called"
-  /\ Same(<<P, judge, ent, wdone, out, files, live, notes, bad>>)
+  /\ Same(<<P, judge, ent, wdone, out, files, live, notes, bad, waived>>)
 
 MCRet(e) ==
   /\ closed' = "ret"
-  /\ Same(<<P, judge, ent, wdone, must, out, files, live, notes, bad>>)
+  /\ Same(<<P, judge, ent, wdone, must, out, files, live, notes, bad, waived>>)
 
 MFile(e) ==
   /\ files' = Ext(files, <<e.f, e.g>>, l)
-  /\ Same(<<P, judge, ent, wdone, must, closed, out, live, notes, bad>>)
+  /\ Same(<<P, judge, ent, wdone, must, closed, out, live, notes, bad, waived>>)
 
 MFinal(e) ==
   /\ live' = e.live
   /\ bad' = Flag(~e.guards, "NoOverrun")
-  /\ Same(<<P, judge, ent, wdone, must, closed, out, files, notes>>)
+  /\ Same(<<P, judge, ent, wdone, must, closed, out, files, notes, waived>>)
 
 \* ---- the files, parsed ---------------------------------------------------------------------------
 \* one generation: acc = [err, seen, order]
@@ -142,7 +145,7 @@ Ordered(q) == \A i \in 1..Len(q), j \in 1..Len(q) : (i < j /\ q[i] \div 10 = q[j
 Verdict(pr) ==
   IF pr.err # "" THEN pr.err
   ELSE IF ~Ordered(pr.o0) \/ ~Ordered(pr.o1) THEN "PerThreadOrder"
-  ELSE IF ~(must \subseteq pr.seen) THEN "NothingLost"
+  ELSE IF ~((must \ waived) \subseteq pr.seen) THEN "NothingLost"
   ELSE IF live # << >> THEN "PagesConserved"
   ELSE ""
 
@@ -153,7 +156,7 @@ MEnd(e) ==
                ELSE IF e.status \in {"crash", "hang"} THEN Flag(TRUE, "NoCrash")
                ELSE Flag(TRUE, "NothingLost")       \* close() did not return although the queue had room
      /\ notes' = IF hungO1 THEN notes \cup {<<"o1", ToString(l)>>} ELSE notes
-     /\ Same(<<P, judge, ent, wdone, must, closed, out, files, live>>)
+     /\ Same(<<P, judge, ent, wdone, must, closed, out, files, live, waived>>)
 
 MNext ==
   /\ l <= Len(Tr)
@@ -170,7 +173,7 @@ MNext ==
           [] e.k = "file" -> MFile(e)
           [] e.k = "final" -> MFinal(e)
           [] e.k = "end" -> MEnd(e)
-          [] OTHER -> UNCHANGED <<P, judge, ent, wdone, must, closed, out, files, live, notes, bad>>
+          [] OTHER -> UNCHANGED <<P, judge, ent, wdone, must, closed, out, files, live, notes, waived, bad>>
   /\ l' = l + 1
   /\ TLCSet(1, l') /\ TLCSet(2, notes')
 
